@@ -877,6 +877,10 @@ func generate(rn *runner, r *hx.Rng, thorough bool) {
 			rn.do("dec " + pickS(r, "bytes", "str", "raw", "big", "u64", "S,bytes", "any", "S,raw") + " " + mh)
 		}
 	}
+	// (t) recursive Go types (self-referential and mutually recursive structs), nesting depth 0..4
+	for _, c := range recFamily(r, 3, true) {
+		rn.do(c.op)
+	}
 	// (i) integers with leading zeros / single-byte forms in every integer reader (rarely produced by mutation)
 	for _, h := range []string{"00", "8100", "8101", "817f", "8180", "820001", "8200ff", "820100", "83000001", "8800ffffffffffffff", "88ffffffffffffffff", "890100000000000000ff", "80", "01", "7f", "02"} {
 		for _, t := range []string{"u8", "u16", "u32", "u64", "bool", "big"} {
